@@ -954,7 +954,8 @@ export class DataGroup<
             propName,
             prop,
             oldValue: undefined,
-            newValue: newData,
+            // (the property's value, not the value written at the sub-path)
+            newValue: (this.data as DataList)[propName],
             skipModelListener: skipModelListener || false,
           })
         }
